@@ -41,3 +41,71 @@ func (g *Grammar) HasRegDefs() bool {
 	}
 	return false
 }
+
+// SharingSensitive reports whether the grammar has a regular definition whose lexemes are not all exactly one
+// character long (multi-character or nullable). Only such definitions can expose gocc's sharing of one item set per
+// definition between call sites; single-character definitions (_digit : '0'-'9') behave like character classes.
+func (g *Grammar) SharingSensitive() bool {
+	regs := map[string]*Pat{}
+	for _, d := range g.Lex {
+		if d.Kind == "reg" {
+			regs[d.Name] = d.P
+		}
+	}
+	// lens returns (min, max) lexeme length, max -1 = unbounded
+	var lens func(p *Pat, depth int) (int, int)
+	lens = func(p *Pat, depth int) (int, int) {
+		if depth > 40 {
+			return 0, -1
+		}
+		switch p.K {
+		case "lit", "rng", "dot":
+			return 1, 1
+		case "ref":
+			if r, ok := regs[p.Name]; ok {
+				return lens(r, depth+1)
+			}
+			return 0, -1
+		case "grp":
+			return lens(p.Sub[0], depth)
+		case "opt":
+			_, hi := lens(p.Sub[0], depth)
+			return 0, hi
+		case "rep":
+			return 0, -1
+		case "alt":
+			lo, hi := 1<<30, 0
+			for _, x := range p.Sub {
+				l, h := lens(x, depth)
+				if l < lo {
+					lo = l
+				}
+				if h < 0 || hi < 0 {
+					hi = -1
+				} else if h > hi {
+					hi = h
+				}
+			}
+			return lo, hi
+		case "seq":
+			lo, hi := 0, 0
+			for _, x := range p.Sub {
+				l, h := lens(x, depth)
+				lo += l
+				if h < 0 || hi < 0 {
+					hi = -1
+				} else {
+					hi += h
+				}
+			}
+			return lo, hi
+		}
+		return 0, -1
+	}
+	for _, r := range regs {
+		if lo, hi := lens(r, 0); lo != 1 || hi != 1 {
+			return true
+		}
+	}
+	return false
+}
